@@ -432,7 +432,7 @@ def fold(res, parts):
 def c04(tier):
     build("cli", "shim")
     r = Result("C04", "exploration", "one evaluation = one (source tree, destination tree, flag set) executed as local->local, push and pull (ssh stand-in = sshd's join-argv-and-run-in-login-shell contract with bash); oracle = reference plan/outcome model written from the statement (wildcard excludes, size/whole-second-mtime quick check, opt-in delete) compared field by field with snapshots (bytes, mtime_ns, ctime_ns, inode) of source, destination, $HOME and the destination's parent; half of the runs with seeded delays before mutating calls (completion-order diversity), 10% with an injected EIO/ENOSPC (judged only on 'non-zero => reported and nothing outside the plan touched'); distinct non-trivial = distinct (direction, flag set, hostile name classes) with >= 1 transfer and >= 1 skipped or deleted file")
-    n = 3000 if tier == "thorough" else 140
+    n = 4000 if tier == "thorough" else 500
     fold(r, run_pool(_c04_worker, seed(), n, "c04"))
     r.assumptions = ["mtimes the file system cannot represent are dropped from the case after a read-back test", "directories are ignored (the property speaks of files)", "the remote side is a local bash via the stand-in; other remote shells are out of scope"]
     finish(r, tier)
@@ -553,7 +553,7 @@ def _c14_worker(args):
 def c14(tier):
     build("cli", "shim")
     r = Result("C14", "exploration", "one evaluation = one (trees, flags, direction) double run: run 1 must read exactly the model's transfer set (opens of source files in copia's libc trace for local/push, remote `cat` commands for pull); the immediately repeated command must plan 0 transfers and 0 deletes, leave (bytes, size, mtime_ns, ctime_ns, inode) of every file on both sides unchanged, read no source file and (local/pull) make no mutating call under either root; mtime sweep 0, 1, x.000000001, x.5, x.999999999, 2^31-1, 2^31, 2100, 9999999999; distinct non-trivial = distinct (direction, mtime classes, name classes) with >= 1 file transferred in run 1 and skipped in run 2")
-    n = 2000 if tier == "thorough" else 120
+    n = 3000 if tier == "thorough" else 400
     fold(r, run_pool(_c14_worker, seed(), n, "c14"))
     r.assumptions = ["cases whose first run fails are skipped (C04 judges them)", "mtimes the file system cannot represent are dropped from the case after a read-back test"]
     finish(r, tier)
@@ -702,8 +702,8 @@ def c15(tier):
     build("cli", "shim", "vh")
     r = Result("C15", "exploration", "sync part: one evaluation = one (trees, exclude list, flags, direction): `--dry-run` must leave source, destination and $HOME byte/mtime/ctime/inode-identical, make no mutating libc call, and print exactly the model's `send`/`delete` lines (whole-text comparison); the real run from the same state must perform exactly those sends and deletes (snapshots; rename/unlink targets in the trace for local/pull); excluded destination files are never modified or deleted, excluded source files never created, nothing is removed without --delete; half of the cases use file names over {a,b,*,?,.,-,é,日}; bisync part: dry run leaves trees and archive bytes identical and its action lines equal the real run's effects; distinct non-trivial = cases with an excluded destination file or a non-empty plan, by (direction, flags, plan size class)")
     th = tier == "thorough"
-    fold(r, run_pool(_c15_worker, seed(), 2500 if th else 130, "c15"))
-    bisync.fold(r, bisync.run_pool(bisync._c15b_worker, seed(), 2000 if th else 120, "c15b"))
+    fold(r, run_pool(_c15_worker, seed(), 3000 if th else 400, "c15"))
+    bisync.fold(r, bisync.run_pool(bisync._c15b_worker, seed(), 2500 if th else 400, "c15b"))
     r.assumptions = ["the reference excluded() is the wildcard definition from the statement with the documented normalisation (trailing '/' trimmed, empty pattern ignored)"]
     finish(r, tier)
 
@@ -862,7 +862,7 @@ def c09(tier):
     if th:
         names += ["gen%d" % i for i in range(34)]
     else:
-        names += ["gen%d" % (seed() * 5 + i) for i in range(2)]
+        names += ["gen%d" % (seed() * 5 + i) for i in range(6)]
     jobs = [(n, d) for n in names for d in DIRECTIONS]
     wroot = workdir("c09")
     args = [(seed(), i, i + 1, wroot, jobs) for i in range(len(jobs))]
